@@ -362,6 +362,55 @@ pub proof fn lemma_wire_ids_injective(a: MessageId, b: MessageId, op: u64)
         assert(sa[0] == sb[0]);
     }
 }
+
+// ---------- MessageId::try_from(Attribute): the id read back from a reply's message-id attribute (C05) ----------
+// the attribute's (unescaped) text is tracked as a character sequence; what std's `str::parse::<usize>()` accepts is the
+// ASSUMED relation `parses_as` (functional in the text; accepts the decimal rendering `dec_text(n)` of every n as n)
+pub uninterp spec fn parses_as(text: Seq<char>, n: int) -> bool;
+pub uninterp spec fn dec_text(n: int) -> Seq<char>;
+#[verifier::external_body]
+pub proof fn axiom_parse_functional(text: Seq<char>, a: int, b: int) requires parses_as(text, a), parses_as(text, b) ensures a == b {}
+#[verifier::external_body]
+pub proof fn axiom_parse_dec(n: int) requires n >= 0 ensures parses_as(dec_text(n), n) {}
+pub struct XmlError; pub struct ParseIntError;
+pub enum ReadError { MessageIdParse(ParseIntError), Xml(XmlError) }
+impl From<XmlError> for ReadError { #[verifier::external_body] fn from(e: XmlError) -> (r: ReadError) { unimplemented!() } }
+pub struct Attribute { pub text: Ghost<Seq<char>> }
+pub struct CowStr { pub text: Ghost<Seq<char>> }
+pub struct StrRef { pub text: Ghost<Seq<char>> }
+impl Attribute {
+    #[verifier::external_body]
+    pub fn unescape_value(&self) -> (r: Result<CowStr, XmlError>) ensures r matches Ok(c) ==> c.text@ == self.text@ { unimplemented!() }
+}
+impl CowStr {
+    #[verifier::external_body]
+    pub fn as_ref(&self) -> (r: StrRef) ensures r.text@ == self.text@ { unimplemented!() }
+}
+impl StrRef {
+    // str::parse::<usize>()
+    #[verifier::external_body]
+    pub fn parse(&self) -> (r: Result<usize, ParseIntError>)
+        ensures match r { Ok(n) => parses_as(self.text@, n as int), Err(_) => forall|n: usize| !parses_as(self.text@, n as int) }
+    { unimplemented!() }
+}
+impl MessageId {
+//@extract id=message_id_try_from_attribute file=netconf/src/message/rpc/mod.rs impl=/impl TryFrom<Attribute<'_>> for MessageId/ fn=try_from rules=R1,R7 r7map=result
+//@sig pub fn try_from(value: Attribute) -> (res: Result<Self, ReadError>)
+//@contract
+        // the id under which a reply is parked / delivered is the number its message-id attribute denotes - the whole
+        // attribute value, nothing skipped or cut off
+        ensures res matches Ok(id) ==> parses_as(value.text@, id.0 as int),                                                     // OBL:C05.message_id.reply_id_is_the_attribute_value
+                (forall|n: usize| !parses_as(value.text@, n as int)) ==> res is Err,                                            // OBL:C05.message_id.non_numeric_attribute_is_rejected
+//@end
+}
+// write then read: the id parsed from the attribute text written for request `id` is `id` again
+pub proof fn lemma_message_id_wire_roundtrip(id: MessageId, back: MessageId)
+    requires parses_as(dec_text(id.0 as int), back.0 as int)
+    ensures back == id                                                                                                          // OBL:C05.message_id.wire_roundtrip
+{
+    axiom_parse_dec(id.0 as int);
+    axiom_parse_functional(dec_text(id.0 as int), id.0 as int, back.0 as int);
+}
 } // mod wire
 
 } // verus!
